@@ -17,6 +17,10 @@ macro_rules! props {
 }
 
 props! {
+    "C05" => c05,
     "C06" => c06,
+    "C07" => c07,
+    "C15" => c15,
+    "C25" => c25,
     "C35" => c35,
 }
